@@ -110,6 +110,13 @@ theorem covar_cache_invisible_without_fast_pred_var (c : Cell) (cls : Nat) (hc :
     (hs : cls = cDefault ∨ cls = cInterp) : sCovar ∉ memoReads table cls c :=
   covar_cache_invisible_cells c (Cell.mem_all c) hc cls (by rcases hs with h | h <;> simp [h])
 
+/-- non-vacuity: a KISS-GP prediction under `fast_pred_samples` alone reads the `(inside_root, None)` representation,
+not slot 2; the default strategy under `fast_pred_samples` alone reads no covariance cache at all -/
+example : sCovar ∉ memoReads table cInterp .fastPredSamples :=
+  covar_cache_invisible_without_fast_pred_var _ _ rfl (Or.inr rfl)
+example : memoReads table cInterp .fastPredSamples = [sMean, sCovarS] ∧ memoReads table cDefault .fastPredSamples = [sMean] ∧
+    memoReads table cInterp .fastPredBoth = [sMean, sCovarS] ∧ memoReads table cInterp .fastPredVar = [sMean, sCovar] := by decide
+
 /-- **What a prediction reads / creates / pops is derived from the source.**  The access function generated from the
 call graph of the four prediction strategies (`exact_prediction → exact_predictive_mean / exact_predictive_covar →
 @cached names / pop_from_cache / super()`, with the settings guards on the way) equals the specification `accessModel`
